@@ -1,10 +1,10 @@
 // C08 — cumulative and quantile functions are proper, mutually inverse and accurate
 // VF-VARIANT: san
 // VF-PRE: oracle/C08_ref.py
-// VF-RULE: E2 on fixed lattices (defined in oracle/C08_ref.py as closed-form functions of the tier, carried bit-exactly by the reference table; nothing random): one case = one lattice line = one parameter point (shape, rate / df / shape pair) with the argument swept over 260-1000 ascending points (0, 1e-300 .. bulk .. far tail, plus -3..+3 ulp around every branch switch of the implementation: series/continued-fraction switch x=1, x=alpha; beta's b*x=1, x=0.95, x=a/(a+b), 1-1/a, 0.05, (a-1)/(a+b-2), power/log-form switches; pNorm's 0.67448975, sqrt(32), -37.5193, 8.2924 and every multiple of 1/16; quantile switches p=0.5, the AS91 start-value switch, the documented limits 2e-6/1-2e-6, df=0.32, shape=1). Every point of every line is evaluated on the real code. A line is non-trivial when it contains values strictly inside (0,1). Plus an explicit list of invalid-argument / support-end calls.
-// VF-BOUND: lattices instead of the continuum: z in [-40,40] step 1/64 (1/256 thorough); p on a logit-uniform grid of 4001 (16001) points in [1e-6,1-1e-6]; gamma shape 96 (384) log-spaced points in [0.05,200] plus specials, rates {1e-3,0.1,1,10,1e3}; chi-square df 64 (192) log-spaced in [0.1,400]; beta shapes 48x48 (72x72) log grid in [0.1,200], quantile shapes 24x24 (48x48) in [0.3,200]; the property's "random points" are replaced by the lattices
+// VF-RULE: E2 on fixed lattices (defined in oracle/C08_ref.py as closed-form functions of the tier and carried bit-exactly by the reference table; nothing random). One case = one lattice line = one parameter point (shape and rate / df / shape pair) with the argument swept over 260-1000 ascending points: 0, 1e-300 .. bulk .. far tail, plus -3..+3 ulp around every branch switch of the implementation (series/continued-fraction switch x=1 and x=alpha; beta: b*x=1, x=0.95, x=a/(a+b), 1-1/a, 0.05, (a-1)/(a+b-2), the power/log-form switches, a+b around 171.62; pNorm: 0.67448975, sqrt(32), -37.5193, 8.2924, 1e-20 and every multiple of 1/16; quantiles: p=0.5, the AS91 start-value switch, the documented limits 2e-6 and 1-2e-6, df=0.32, shape=1). Long lines (normal, quantiles) are cut into segments that share their end point, so every neighbour pair is compared. Every point of every line is evaluated on the real code. A case is non-trivial when it contains values strictly inside (0,1) (cdf) or judged quantiles. Plus an explicit list of invalid-argument and probability-end calls.
+// VF-BOUND: lattices instead of the continuum, quick (thorough): z in [-40,40] step 1/64 (1/256); p logit-uniform in [1e-6,1-1e-6]: 4001 (16001) points for qNorm/qChisq, 1001 (4001) for qGamma, 401 (1001) for qBeta; gamma shape 96 (384) log-spaced points in [0.05,200] plus 14 specials, rates {1e-3,0.1,1,10,1e3} (rate != 1 on every 8th shape); chi-square df 64 (192) log-spaced in [0.1,400] plus 8 specials; beta shapes 48x48 (72x72) log grid in [0.1,200] plus special and a+b~171.62 pairs, quantile shapes 24x24 (48x48) in [0.3,200]; x grids of 260-1000 points per line; the "random points" of the property are replaced by the lattices
 // VF-LEVEL: bounded-exhaustive evaluation of the real functions on fixed lattices including ulp-neighbourhoods of every branch switch; judged against an independent reference (scipy.special validated against 40-digit mpmath on a sub-lattice in the same run) and against tolerance-free order/identity oracles; nothing is known about arguments between lattice points
-// VF-ASSUME: scipy.special (ndtr, gammainc, betainc and their inverses) is accurate to 1e-15/1e-13/1e-13 absolute on the whole lattice as it is on the validated sub-lattice (every 16th normal/gamma point, every 41st beta point against mpmath at 40 digits);; IEEE-754 double arithmetic, glibc libm;; the exact cdfs are monotone, so bracket membership decides |F(q)-p|<=1e-8 exactly
+// VF-ASSUME: scipy.special (ndtr, gammainc, betainc and their inverses) is accurate to 1e-15/1e-13/1e-13 absolute on the whole lattice as it is on the validated sub-lattice (every 16th normal and gamma-type point, every 41st (quick) or 101st (thorough) beta point, every 500th-1000th quantile bracket, against mpmath at 40 digits; the script aborts the check with a harness error if they disagree);; IEEE-754 double arithmetic, glibc libm;; the exact cdfs are monotone, so bracket membership decides |F(q)-p|<=1e-8 exactly
 // VF-TECHNIQUE: exhaustive lattice evaluation with reference table and exact order/identity oracles
 // VF-BUDGET_QUICK: 120
 #include "vf.hpp"
